@@ -68,11 +68,15 @@ package codec
 // ---- strings, member names and framing (C08) -------------------------------------------------------
 // jq(s) is the JSON string literal appendString (the copy of encoding/json's escaper) produces for s.
 //@ spec func jq(s string) string
+// jq itself is a NAME for what the escaper returns (free postcondition: the loop over runes is not given an
+// invariant); what is checked in the body is each escape it writes: a control character without a short
+// form becomes a backslash, 'u' and exactly four hex digits (zero padding of 3 below 0x10, of 2 from 0x10).
 //@ func appendString
-//@   opt assumed copy of encoding/json's string escaper: appends the quoted, escaped literal jq(in) or fails on invalid UTF-8
 //@   opt strings smt
 //@   modifies fresh:result0
-//@   ensures result1 == nil ==> string(result0) == old(string(out)) + jq(in)
+//@   free ensures result1 == nil ==> string(result0) == old(string(out)) + jq(in)
+//@   assert at AppendUint#0 pad: arg1 == r && 0 <= r && r < 32 && len(arg0) >= 4 && arg0[len(arg0)-1] == '0' && arg0[len(arg0)-2] == '0'
+//@   |   && (r < 16 ? len(arg0) >= 5 && arg0[len(arg0)-3] == '0' && arg0[len(arg0)-4] == 'u' && arg0[len(arg0)-5] == '\\' : arg0[len(arg0)-3] == 'u' && arg0[len(arg0)-4] == '\\')
 
 //@ func (*encoder).addString
 //@   opt strings smt
@@ -238,3 +242,9 @@ package codec
 //@ func (*decoder).decodeEnum
 //@   assert at SetFromString#0 stored: typeis(token, string) && arg0 == as(string, token)
 //@   assert at return#4 wrongtype: result0 != nil && !typeis(token, string)
+
+// the scan for the next character that needs escaping stays inside the string (ASSUMED: its loop ranges
+// over the runes of a string, for which the engine has no index invariant)
+//@ func indexNeedEscapeInString
+//@   pure
+//@   free ensures 0 <= result && result <= len(s)
